@@ -164,21 +164,51 @@ def check(c):
     hk = c.func(M, 'XtriggerManager.housekeep')
     dels = [s for s in c.stores(hk, 'sat_xtrig') if s.kind == 'del']
     c.floor('C33.housekeep', 'del self.sat_xtrig[sig]', len(dels), 1)
-    for d in dels:
-        c.guard('C33.housekeep', d.node, ['!(_s in all_xtrig)'], hk)
-    acc = [n for n in ast.walk(hk.node) if isinstance(n, ast.AugAssign)
-           and norm(n.target) == 'all_xtrig']
-    ok = False
-    for a in acc:
-        if c.find(a.value, 'self._get_xtrigs(_t, sigs_only=True, '
-                  'unsat_only=True)'):
-            par = c.idx.parent[id(a)]
-            if isinstance(par, ast.For) and norm(par.iter) == \
-                    hk.node.args.args[1].arg:
-                ok = True
-    c.ob('C33.housekeep', f'{hk.fq} :: needed = unsatisfied signatures of '
-         'all tasks', ok, c.where(hk.node, hk), '')
+    # a satisfied-xtrigger record is dropped only when no task in the pool
+    # still needs it: the deletion is guarded by `sig not in <needed>` where
+    # <needed> collects _get_xtrigs(task, sigs_only=True, unsat_only=True)
+    # over all the given tasks (accumulating loop or comprehension, any names)
+    tasks_param = hk.node.args.args[1].arg
 
+    def collects_needed(e):
+        """e (or the local it names) gathers the unsatisfied signatures of
+        every task of the parameter."""
+        exprs = [e]
+        if isinstance(e, ast.Name):
+            exprs = [n.value for n in ast.walk(hk.node) if isinstance(
+                n, (ast.Assign, ast.AugAssign)) and norm(
+                n.targets[0] if isinstance(n, ast.Assign) else n.target)
+                == e.id]
+        hit = False
+        for x in exprs:
+            for call in c.find(x, 'self._get_xtrigs(_t, sigs_only=True, '
+                               'unsat_only=True)'):
+                its = set()
+                cur = call
+                while id(cur) in c.idx.parent and cur is not hk.node:
+                    cur = c.idx.parent[id(cur)]
+                    if isinstance(cur, ast.For):
+                        its.add(norm(cur.iter))
+                    elif isinstance(cur, (ast.ListComp, ast.GeneratorExp,
+                                          ast.SetComp)):
+                        its |= {norm(g.iter) for g in cur.generators}
+                        if any(g.ifs for g in cur.generators):
+                            return False
+                if tasks_param in its:
+                    hit = True
+        return hit
+    for d in dels:
+        ok = False
+        for fact in c.facts(d.node, expand=False):
+            if fact[0] == 'atom' and isinstance(fact[1], ast.Compare) and \
+                    len(fact[1].ops) == 1:
+                op = fact[1].ops[0]
+                neg_in = (isinstance(op, ast.NotIn) and fact[2]) or (
+                    isinstance(op, ast.In) and not fact[2])
+                if neg_in and collects_needed(fact[1].comparators[0]):
+                    ok = True
+        c.ob('C33.housekeep', c.key(d.node, hk) + ' only for signatures no '
+             'task still needs', ok, c.where(d.node, hk), '')
     # writers
     allow = {
         'active': {
